@@ -188,7 +188,7 @@ func (e *Enc) mapLen(st *State, mt *types.Map, ref string) string {
 
 func (e *Enc) mapFacts(st *State, mt *types.Map, ref string, present string) {
 	ln := e.mapLen(st, mt, ref)
-	e.assume(st, fmt.Sprintf("(and (<= 0 %s) (=> %s (and (>= %s 1) (not (= %s 0)))))", ln, present, ln, ref))
+	e.assume(st, fmt.Sprintf("(and (<= 0 %s) (<= %s 1099511627776) (=> %s (and (>= %s 1) (not (= %s 0)))))", ln, ln, present, ln, ref))
 }
 
 func (e *Enc) lookup(fr *Frame, st *State, x *ssa.Lookup) {
